@@ -145,7 +145,10 @@ int walk(int n, long acc) {
   return acc + loc.w;
 }
 """
-FIXED_SOURCES = [("known", SRC_KNOWN), ("min-mix", SRC_MIN), ("min-loop", SRC_MIN2), ("struct", SRC_STRUCT)]
+# past failing input of the search: the only source so far on which the order of otherwise unordered selection-dag
+# trees (phi copies) in dagsplit.topological_sort_modified showed (x86_64 -O2)
+SRC_DAGORDER = 'long g0;\nunsigned char g1;\nunsigned int g2;\nint arr[16];\nextern int ext(int);\nshort f0(long p0) { int v0 = 0; int v1 = 0; long v2 = 7; for (v0 = 0; v0 < arr[p0 & 3]; v0++) { while (((v0 | v0) + (v2 << 86)) > 2) { v2 = v2 / 2; g0 = arr[139 & 3]; } } arr[v0 & 3] = v2; while (arr[(v1 & 139) & 3] > 15) { v1 = v1 / 2; for (p0 = 0; p0 < v0; p0++) { v1 = (p0 & p0); g1 = ((v1 + v0) ^ (v2 << v2)); } switch (v2) { case 6: v1 += v1; break; case 9: v1 += arr[v1 & 3]; break; case 11: v0 += p0; break; default: v2 = ((91 * v0) * (p0 - v0)); break; } } return v2; }\nlong f1(int p0, long p1, unsigned char p2, int p3, long p4) { int v0 = 0; char v1 = 2; char v2 = 8; if (p0 < v2) { g2 = arr[arr[p1 & 3] & 3]; g0 = v0; } else { g2 = ((p0 >> 2) ^ arr[p0 & 3]); } switch (v2) { case 1: v1 += (p0 << p2); break; case 6: v1 += (73 << v2); break; case 10: p4 += (p0 << v1); break; case 11: p2 += (147 * p1); break; default: v2 = (arr[v2 & 3] + f0(p4)); break; } if (p1 < f0((p3 + p1))) { for (p1 = 0; p1 < p2; p1++) { g2 = (v2 * (p2 ^ p0)); p4 = p0; } p0 = (((p4 >> p3) | (130 + v2)) - arr[f0(p4) & 3]); arr[p3 & 3] = ((p0 & v0) * (v2 - p4)); } else { if (arr[p3 & 3] < (v2 * (p4 - v1))) { g2 = ((v0 ^ p2) + 123); } else { g2 = p3; } for (v0 = 0; v0 < (p3 - v0); v0++) { g1 = arr[(p4 ^ p3) & 3]; g1 = (p0 * (v2 | p0)); g2 = (f0(v2) - (v2 & p0)); } p4 = (165 | ((p4 + p4) >> p4)); } return p2; }\nshort f2(unsigned int p0, long p1, unsigned int p2, long p3) { long v0 = 1; int v1 = 9; p2 = p2; return v0; }\n'
+FIXED_SOURCES = [("known", SRC_KNOWN), ("min-mix", SRC_MIN), ("dag-order", SRC_DAGORDER), ("min-loop", SRC_MIN2), ("struct", SRC_STRUCT)]
 
 TYPES = ["char", "short", "int", "long", "int", "unsigned int"]
 
@@ -428,11 +431,11 @@ def check(ctx):
 
     # ---- failing-input search for process-level determinism (NOT part of the proof) ----
     rng = ctx.rng
-    fixed = FIXED_SOURCES if ctx.thorough else FIXED_SOURCES[:3]
-    sources = list(fixed) + [(f"gen{i}", gen_source(rng)) for i in range(24 if ctx.thorough else 1)]
+    fixed = FIXED_SOURCES if ctx.thorough else FIXED_SOURCES[:3]     # quick: known, min-mix, dag-order
+    sources = list(fixed) + [(f"gen{i}", gen_source(rng)) for i in range(12 if ctx.thorough else 1)]
     configs = THOROUGH_CONFIGS if ctx.thorough else QUICK_CONFIGS
     if ctx.thorough:
-        seeds = [(hs, v) for hs in range(8) for v in ("fresh", "after-unrelated")]
+        seeds = [(hs, v) for hs in range(6) for v in ("fresh", "after-unrelated")]
     else:   # 5 processes per source: two seeds fresh, the first seed again after other work, two more seeds
         seeds = [(0, "fresh"), (1, "fresh"), (0, "after-unrelated"), (2, "after-unrelated"), (3, "fresh")]
     res = determinism_search(ctx, sources, configs, seeds)
